@@ -73,12 +73,15 @@ Qed.
 Lemma mark_pool p k0 fl r : reg p = Some r -> NoDup (keys r) ->
   let p' := fst (mark p k0 fl) in
   let c' := mkEntry k0 (last p + 1) (negb (N.testbit fl 0)) (negb (N.testbit fl 1)) in
-  (forall k, lookup k (regList p') = if k0 =? k then (if fl =? 0 then None else Some c') else lookup k r) /\
+  (forall k, lookup k (regList p') =
+             if k0 =? k then (match lookup k0 r with
+                              | Some _ => Some c'
+                              | None => if fl =? 0 then None else Some c' end)
+             else lookup k r) /\
   pendF p' = pendF p /\ pendR p' = pendR p /\ closed p' = false /\ NoDup (keys (regList p')).
 Proof.
   intros Hr ND. unfold mark. rewrite Hr.
-  destruct (lookup k0 r) as [c|] eqn:L; destruct (fl =? 0) eqn:Z; cbn [fst regList reg pendF pendR closed].
-  - repeat split; auto. + intros k. apply lookup_delete. + apply nodup_keys_filter; exact ND.
+  destruct (lookup k0 r) as [c|] eqn:L; [|destruct (fl =? 0) eqn:Z]; cbn [fst regList reg pendF pendR closed].
   - repeat split; auto. + intros k. rewrite lookup_store. reflexivity. + apply nodup_keys_store; exact ND.
   - unfold regList, closed. rewrite Hr. repeat split; auto.
     intros k. keq k0 k; [exact L|reflexivity].
@@ -107,16 +110,27 @@ Proof.
     assert (NR0 : occ k (keys (pendR (pl w))) = 0%nat).
     { destruct (Nat.eq_dec (occ k (keys (pendR (pl w)))) 1) as [E1|E1]; [|lia].
       destruct (k_pR0 E1) as ((D & Hh & _) & _). cbn in D, Hh. rewrite D, Hh in EN. discriminate. }
-    constructor; cbn [vLook vNF vNR vClosed vDrop vHeld vArmed vFinc vRelc vFar vWF vWR vLost];
-      rewrite ?HF, ?HR, ?HC, ?HL, ?N.eqb_refl, ?finc_marked, ?relc_marked, ?N.eqb_refl; try lia; try discriminate.
-    + simpl. rewrite N.eqb_refl. reflexivity.
-    + unfold wantsR. simpl. rewrite N.eqb_refl. intros WR. right. split; [reflexivity|]. left.
-      destruct (fl =? 0) eqn:Z; [apply N.eqb_eq in Z; subst fl; discriminate|].
-      eexists. split; [reflexivity|]. simpl. rewrite WR. reflexivity.
-    + unfold wantsF. simpl. rewrite N.eqb_refl. intros WF. right. left. split; [reflexivity|]. left.
-      destruct (fl =? 0) eqn:Z; [apply N.eqb_eq in Z; subst fl; discriminate|].
-      eexists. split; [reflexivity|]. simpl. rewrite WF. reflexivity.
-    + intros _. apply mem_rm_same.
+    specialize (HL k). rewrite N.eqb_refl in HL.
+    set (c' := mkEntry k (last (pl w) + 1) (negb (N.testbit fl 0)) (negb (N.testbit fl 1))) in *.
+    assert (CASES : (lookup k (regList p') = None /\ fl = 0) \/ lookup k (regList p') = Some c').
+    { destruct (lookup k r); [right; exact HL|]. destruct (fl =? 0) eqn:Z; [left; split; [exact HL|apply N.eqb_eq; exact Z]|right; exact HL]. }
+    destruct CASES as [[HLk Z0]|HLk].
+    + (* flags 0 on a value the pool does not know: nothing happens *)
+      subst fl.
+      constructor; cbn [vLook vNF vNR vClosed vDrop vHeld vArmed vFinc vRelc vFar vWF vWR vLost];
+        rewrite ?HF, ?HR, ?HC, ?HLk, ?finc_marked, ?relc_marked, ?N.eqb_refl; try lia; try discriminate.
+      * simpl. rewrite N.eqb_refl. reflexivity.
+      * unfold wantsR. simpl. rewrite N.eqb_refl. discriminate.
+      * unfold wantsF. simpl. rewrite N.eqb_refl. discriminate.
+      * intros _. apply mem_rm_same.
+    + constructor; cbn [vLook vNF vNR vClosed vDrop vHeld vArmed vFinc vRelc vFar vWF vWR vLost];
+        rewrite ?HF, ?HR, ?HC, ?HLk, ?finc_marked, ?relc_marked, ?N.eqb_refl; try lia; try discriminate.
+      * simpl. rewrite N.eqb_refl. reflexivity.
+      * unfold wantsR. simpl. rewrite N.eqb_refl. intros WR. right. split; [reflexivity|]. left.
+        exists c'. split; [reflexivity|]. simpl. rewrite WR. reflexivity.
+      * unfold wantsF. simpl. rewrite N.eqb_refl. intros WF. right. left. split; [reflexivity|]. left.
+        exists c'. split; [reflexivity|]. simpl. rewrite WF. reflexivity.
+      * intros _. apply mem_rm_same.
   - (* another key *)
     assert (AR : mem k (match oCalls x with
                         | [] => armed w
